@@ -127,6 +127,7 @@ class Program:
             raise NotApplicable(f'set-up raised {type(e).__name__}')
         if not self.tol.operands or not self.pspecs:
             raise NotApplicable('empty tolerancing problem')
+        self.excursion = False
         self.nominal = self.snapshot()
         m = self.w.model
         # positions carry round-off of the edit history whenever a gap is
@@ -220,11 +221,23 @@ class Program:
     def driver(self, trial_seed):
         h = self.hist
         if h.get('driver') == 'stub':
-            return simopt.StubDriver(h.get('plan', []),
-                                     [s.get('step', 1e-3)
-                                      for s in self.cspecs],
-                                     self.stats['probes'])
-        return simopt.RealDriver(trial_seed, self.stats['probes'])
+            drv = simopt.StubDriver(h.get('plan', []),
+                                    [s.get('step', 1e-3)
+                                     for s in self.cspecs],
+                                    self.stats['probes'])
+        else:
+            drv = simopt.RealDriver(trial_seed, self.stats['probes'])
+        lim = 1e9 * (1 + self.w.model.zscale)
+
+        def watch():
+            # an unbounded compensation that walks the lens to astronomical
+            # size absorbs its other gaps for good (positions are absolute)
+            z = self.lens.surface_group.positions[1:]
+            z = np.abs(z[np.isfinite(z)])
+            if z.size and float(z.max()) > lim:
+                self.excursion = True
+        drv.after_eval = watch
+        return drv
 
 
 def rows_of(obj):
@@ -303,6 +316,9 @@ class Sim:
             rows = rows_of(obj)
             tables.append(rows)
             self.rd.add([op, rows])
+            if check and P.excursion:
+                self.probe('compensation_excursion_to_astronomical_size')
+                raise NotApplicable('lens left the representable domain')
             if check:
                 self.probe(f'run_completed:{op}')
                 self.check_restored(P, op)
